@@ -109,6 +109,22 @@ def _impl(tier, seed, search):
     for name, f in {'skewa': b.skewa, 'delta2tr': b.delta2tr, 'Twist3': lambda s: Twist3(s), 'unittwist': b.unittwist, 'SE3.Exp': lambda s: SE3.Exp(s)}.items():
         for fv in FORMS(v6)[:3]:
             observe('container-forms', f'{name}[{type(fv).__name__}]', f, [fv], sig=f'mutates:{name}')
+    # the string-producing helpers (file=None returns the text) on values with entries at rounding level — products of quarter turns and
+    # unit translations leave 1e-17-sized translation / rotation entries, which a formatter may be tempted to clean up in place
+    import io
+    noisy3 = [b.trotx(math.pi / 2) @ b.transl(0, 0, 1), b.troty(math.pi / 2) @ b.transl(1, 0, 0) @ b.trotz(math.pi / 2), np.block([[inputs.so3(g), np.array([[3e-15], [1.0], [-2e-16]])], [np.zeros((1, 3)), np.ones((1, 1))]])]
+    noisy2 = [b.trot2(math.pi / 2) @ b.transl2(0, 1), b.transl2(1, 0) @ b.trot2(math.pi / 2) @ b.transl2(0, 1), np.array([[0.0, -1.0, 4e-16], [1.0, 0.0, 2.0], [0, 0, 1.0]])]
+    for k_, Tn in enumerate(noisy3):
+        for opt_ in (dict(), dict(orient='eul'), dict(orient='angvec'), dict(unit='rad')):
+            observe('display', f'trprint(T{k_},{list(opt_)})', lambda T_: b.trprint(T_, file=None, **opt_), [Tn.copy()], sig='mutates:trprint')
+        observe('display', f'trprint(R{k_})', lambda R_: b.trprint(R_, file=None), [Tn[:3, :3].copy()], sig='mutates:trprint')
+        Xn = SE3(Tn.copy(), check=False)
+        observe('display', f'SE3.printline({k_})', lambda X_: X_.printline(file=None), [Xn], sig='mutates:SE3.printline'); observe('display', f'SE3.__str__({k_})', lambda X_: str(X_), [Xn], sig='mutates:SE3.__str__')
+        observe('display', f'SE3.__repr__({k_})', lambda X_: repr(X_), [Xn], sig='mutates:SE3.__repr__'); observe('display', f'SO3.printline({k_})', lambda X_: X_.printline(file=None), [SO3(Tn[:3, :3].copy(), check=False)], sig='mutates:SO3.printline')
+    for k_, Tn in enumerate(noisy2):
+        observe('display', f'trprint2(T{k_})', lambda T_: b.trprint2(T_, file=None), [Tn.copy()], sig='mutates:trprint2'); observe('display', f'trprint2(T{k_},rad)', lambda T_: b.trprint2(T_, file=None, unit='rad'), [Tn.copy()], sig='mutates:trprint2')
+        Xn = SE2(Tn.copy(), check=False)
+        observe('display', f'SE2.printline({k_})', lambda X_: X_.printline(file=None), [Xn], sig='mutates:SE2.printline'); observe('display', f'SE2.__str__({k_})', lambda X_: str(X_), [Xn], sig='mutates:SE2.__str__')
     # constructors from lists of arrays / objects: the list and its elements stay untouched
     for cname, cls, mk in (('SO3', SO3, lambda: inputs.so3(g)), ('SE3', SE3, lambda: inputs.se3(g, 1)), ('SO2', SO2, lambda: inputs.so2(g)), ('SE2', SE2, lambda: inputs.se2(g, 1)),
                            ('UnitQuaternion', UnitQuaternion, lambda: inputs.unitq(g)), ('Quaternion', Quaternion, lambda: g.normal(size=4)), ('Twist3', Twist3, lambda: g.normal(size=6)), ('Twist2', Twist2, lambda: g.normal(size=3))):
